@@ -901,6 +901,55 @@ theorem C09_emdpath_root_new_single (over : Bool) (f : Obj) (F Rt D : Tree) (bod
     Except.pure, Bool.not_true, Bool.false_and, Bool.false_eq_true, if_false, Option.isNone_some, Bool.and_false,
     beq_self_eq_true, if_true, atPath, updateAt, hwrite]
 
+theorem path_names_valid : ∀ (p : List String) (t s : Tree), t.wf CT DT = true → t.at p = some s → ∀ n ∈ p, validName n = true
+  | [], _, _, _, _, n, hn => by cases hn
+  | m :: q, .mk i kids, s, hw, hat, n, hn => by
+    simp only [Tree.wf, Bool.and_eq_true] at hw
+    simp only [Tree.at, Tree.kids_mk] at hat
+    cases hk : findKid m kids with
+    | none => simp [hk] at hat
+    | some c =>
+      simp only [hk] at hat
+      obtain ⟨hcw, _, _⟩ := kidsWF_find (ct := CT) (dt := DT) kids _ c hw.2 hk
+      cases hn with
+      | head =>
+        have := infoWF_validName (Tree.wf_info hcw)
+        rw [show c.info.name = c.name from rfl, findKid_name' m kids c hk] at this
+        exact this
+      | tail _ hn' => exact path_names_valid q c s hcw hat n hn'
+
+/-- C09, an emdpath that names the very node being appended (`emdpath='root/a/b'` for the runtime node a/b, which is in
+    the file) changes nothing: the result is that of the same append without emdpath, for every tree option and both modes —
+    so `C09_target_below`, `C09_target_yes_append`, `C09_target_no_append`, `C09_target_over_branch`, `C09_target_over_single`
+    also describe these six leaves of the emdpath branch of the dispatch -/
+theorem C09_emdpath_self (over : Bool) (opt : TreeOpt) (f : Obj) (F Rt S D : Tree) (body' : List (String × Obj))
+    (n0 : String) (p0 : List String)
+    (hF : F.rootedWF CT DT = true) (hR : Rt.rootedWF CT DT = true) (hname : Rt.name = F.name)
+    (hf : alookup F.name f.kids = some (encode F)) (hroot : (rootGroups f).contains F.name = true)
+    (hmdname : "metadatabundle" ∉ names F.kids)
+    (hmd : mdBody over F.info.body (mdEntries Rt.info) = .ok body')
+    (hS : F.at (n0 :: p0) = some S) (hD : Rt.at (n0 :: p0) = some D) :
+    appendInto DT f Rt (n0 :: p0) over opt (some (joinPath (F.name :: n0 :: p0)))
+      = appendInto DT f Rt (n0 :: p0) over opt none := by
+  simp only [Tree.rootedWF, Bool.and_eq_true, beq_iff_eq] at hF hR
+  obtain ⟨hF1w, hrm⟩ := rootMd_encode over F Rt.info body' hF.1.1 hmdname hmd
+  have hS1 : (withBody F body').at (n0 :: p0) = some S := by rw [withBody_at]; exact hS
+  have hval0 := validate_inside (ct := CT) (dt := DT) (n0 :: p0) F S hF.1.1 hS
+  have hval := validate_inside (ct := CT) (dt := DT) (n0 :: p0) (withBody F body') S hF1w hS1
+  have hparse := parse_path F.name (n0 :: p0) (by
+    intro n hn
+    cases hn with
+    | head => exact infoWF_validName (Tree.wf_info hF.1.1)
+    | tail _ hn' => exact path_names_valid (n0 :: p0) F S hF.1.1 hS n hn')
+  have e1 : (TreeOpt.below == TreeOpt.yes) = false := by decide
+  have e2 : (TreeOpt.below == TreeOpt.no) = false := by decide
+  have e3 : (TreeOpt.below == TreeOpt.below) = true := by decide
+  cases opt <;>
+  simp only [e1, e2, e3, appendInto, appendCore, hname, hroot, hD, hf, hrm, hparse, hval0, hval, List.isEmpty_cons, bind, Except.bind, pure,
+    Except.pure, Bool.not_true, Bool.false_and, Bool.false_eq_true, if_false, Option.isNone_some, Option.isNone_none,
+    Bool.and_false, Bool.and_true, beq_self_eq_true, if_true, overThenAppend, Bool.or_self, Bool.or_true, Bool.true_or,
+    Bool.or_false, Bool.false_or, reduceCtorEq, decide_false, decide_true] <;> rfl
+
 /-- what "exactly there, and nothing else" means for all three targeted theorems: after replacing the subtree at `p`,
     the new subtree is what is read at `p` (and below), and the content of every node whose path does not pass through
     `p` is what it was -/
@@ -1040,6 +1089,13 @@ theorem C09_twice (over : Bool) (f : Obj) (F R1 R2 : Tree) (b1 b2 : List (String
   · rw [hd_roots, hc_roots]
   · rw [hd_attrs, hc_attrs]
   · intro n p; rw [hspec2 n p, hspec1 n p]
+
+-- …and the name-space condition of the append-over theorems holds for that pair at the node `a` (file: an Array with a
+-- file-only child, runtime: a Node with a new branch)
+example : (match exR.at ["a"] with
+    | some D => compatOne true exF.info exF.kids (akeys exF.info.body ++ names exF.kids ++ [D.name]) D
+                && compatOne true exF.info exF.kids (akeys exF.info.body ++ names exF.kids ++ [D.name]) (.mk D.info [])
+    | none => false) = true := by decide
 
 -- non-vacuity of the targeted theorems' hypotheses on the example pair above: `a` is in both trees (target of
 -- C09_target_below), `a/new` is in the runtime tree only and `new` is neither a child nor a body object of the file's `a`
